@@ -43,7 +43,7 @@ def frame_effects(P):
     eff = {}
     users = []
     for _round in range(4):
-        users = [f for f in P.fns.values() if any(c.resolved in (BEGIN, COMMIT, ROLLBACK) or c.resolved in eff for c in f.calls())]
+        users = [f for f in P.fns.values() if any(c.resolved in (BEGIN, COMMIT, ROLLBACK) or eff.get(c.resolved, {0}) != {0} for c in f.calls())]
         changed = False
         for f in users:
             if f.impl_self == F:
